@@ -8,8 +8,9 @@ from engines.simprop import make_execute
 from vlib.core import bad, inconclusive, ok
 
 LEVEL = 'exploration'
-RULE = ('unit: op sequences (acquire-nonblocking, release, grow, shrink when '
-        'value>0, clear; up to 200 ops, n 0-8) on LaxBoundedSemaphore against the '
+RULE = ('unit: op sequences (acquire-nonblocking, release, grow, shrink - with no '
+        'free slot it must wait for a release -, clear; up to 200 ops, n 0-8) on '
+        'LaxBoundedSemaphore against the '
         'reference model (v,b); all sequences up to length 7 over n in 0..2 are '
         'enumerated. sim: E1 histories with putlocks=True, apply jobs taking '
         'slots, deaths, recycles, limit kills with late results, grow/shrink, '
@@ -51,11 +52,32 @@ def execute_unit(case):
             labels.add('grow')
         elif op == 's':
             if v <= 0:
-                continue     # would block: the pool only shrinks with a free slot
-            sem.shrink()
-            v -= 1
-            b -= 1
-            labels.add('shrink')
+                # no free slot: shrink() has to wait for one (Pool.shrink() with
+                # every slot taken waits for the next result).  Not with a last
+                # slot: release() could never serve it.
+                if b < 2:
+                    continue
+                import threading
+                th = threading.Thread(target=sem.shrink)
+                th.daemon = True
+                th.start()
+                th.join(0.003)
+                if not th.is_alive():
+                    return bad('C10/unit-shrink-did-not-wait', 'shrink() with no '
+                               'free slot returned at once: value %d bound %d, '
+                               'model (%d,%d)' % (sem._value, sem._initial_value,
+                                                  v, b))
+                sem.release()
+                th.join(20)
+                if th.is_alive():
+                    return inconclusive('waiting shrink() not served within 20 s')
+                b -= 1
+                labels.add('shrink_waited')
+            else:
+                sem.shrink()
+                v -= 1
+                b -= 1
+                labels.add('shrink')
         elif op == 'c':
             sem.clear()
             v = b
